@@ -6,6 +6,7 @@ mod bound;
 mod client;
 mod engine;
 mod gen;
+mod world;
 mod threads;
 mod poller;
 mod segfile;
@@ -52,6 +53,7 @@ fn lines() {
             "stall" => engine::run_stall(&toks[1..]),
             "seg" => segfile::run_seg(&toks[1..]),
             "pol" => poller::run(&toks[1..]),
+            "wld" => world::run(&toks[1..]),
             "thr" => {
                 // worker threads may be left behind on a violation: answer and leave the process
                 let r = threads::run(&toks[1..]);
